@@ -95,6 +95,12 @@ func (f *sessionFam) endPhase(w *World) {
 		sid := w.SockIDs[a]
 		r := w.serve(w.H, "prober", ReqSpec{Method: "GET", Path: f.path(), Query: "EIO=4&transport=polling&sid=" + sid})
 		w.recx(Ev{Sess: a, Kind: "dead-sid-probe", S: string(r.Body), N: int64(r.Status)})
+		if f.wsEnabled() {
+			// the same for a request that asks to upgrade to WebSocket: refused before anything is accepted
+			r := w.serve(w.H, "prober", ReqSpec{Method: "GET", Path: f.path(), Query: "EIO=4&transport=websocket&sid=" + sid,
+				Hdr: map[string]string{"Connection": "Upgrade", "Upgrade": "websocket", "Sec-WebSocket-Version": "13", "Sec-WebSocket-Key": "dGhlIHNhbXBsZSBub25jZQ=="}})
+			w.recx(Ev{Sess: a, Kind: "dead-sid-probe", S: string(r.Body), N: int64(r.Status), P: []string{"websocket-upgrade"}})
+		}
 	}
 	w.rec("", "drain-start", "", 0)
 	// every client vanishes
@@ -252,6 +258,18 @@ func (f *sessionFam) quiescent(w *World) {
 	w.mu.Lock()
 	w.States[strings.Join(st, " ")] = true
 	w.mu.Unlock()
+}
+
+func (f *sessionFam) wsEnabled() bool {
+	if len(f.sc.Opts.Transports) == 0 {
+		return true
+	}
+	for _, t := range f.sc.Opts.Transports {
+		if t == "websocket" {
+			return true
+		}
+	}
+	return false
 }
 
 func (f *sessionFam) finish(w *World, res *Result) {
@@ -531,7 +549,11 @@ func oracleC04(f *sessionFam, w *World) []Violation {
 	}
 	for _, e := range w.evs("", "dead-sid-probe") {
 		if e.N != 400 || !strings.Contains(e.S, `"code":1`) || !strings.Contains(e.S, "Session ID unknown") {
-			v("closed-session-unknown", "", fmt.Sprintf("request naming closed session of %s answered %d %q", e.Sess, e.N, clip(e.S, 80)))
+			c := ""
+			if len(e.P) > 0 {
+				c = e.P[0]
+			}
+			v("closed-session-unknown", c, fmt.Sprintf("%s request naming closed session of %s answered %d %q", strings.TrimSpace(c+" polling"), e.Sess, e.N, clip(e.S, 80)))
 		}
 	}
 	if f.drained {
